@@ -20,10 +20,10 @@ RULE = ('random sequences (4-8 calls quick, 6-16 thorough) over the listed publi
         'they occur. non-trivial = a sequence containing a repeated call separated by a different call')
 ASSUMPTIONS = ['per-call frame conditions of the real code are established only on the explored sequences (partial)',
                'the model lifts per-call purity to all sequences (proved)']
-NCALLS = 23
+NCALLS = 25
 CALL_NAMES = ['cf_cycles', 'cf_amp', 'cf_trough', 'shape', 'burst_cycles', 'burst_amp', 'cyclepoints', 'g2d_dict', 'g2d_list',
               'g2d_none', 'g3d', 'rc_edges', 'limit_df', 'epoch_df', 'drop_samples', 'plot_summary', 'plot_cp_df', 'plot_cp_array',
-              'plot_param', 'plot_feature', 'cf_amp_empty_thr', 'cf_cycles_empty_thr', 'cf_amp_empty_bk']
+              'plot_param', 'plot_feature', 'cf_amp_empty_thr', 'cf_cycles_empty_thr', 'cf_amp_empty_bk', 'rc_edges_no_bursts', 'limit_df_no_bursts']
 
 
 def cases(rng, tier):
@@ -87,6 +87,10 @@ def _env(c):
     env['sigs3'] = np.array([env['sigs2'], env['sigs2'][::-1]])
     env['df'] = compute_features(sig, fs, fr, threshold_kwargs=copy.deepcopy(thr))
     env['df_shape'] = compute_shape_features(sig, fs, fr)
+    # a table without any burst (strict thresholds): shortcut paths must not write into it either
+    env['df_quiet'] = compute_features(sig, fs, fr, threshold_kwargs={'amp_fraction_threshold': 0.99, 'amp_consistency_threshold': 0.99,
+                                                                       'period_consistency_threshold': 0.99, 'monotonicity_threshold': 1.0,
+                                                                       'min_n_cycles': 3})
     env['peaks'] = env['df']['sample_peak'].values.copy()
     env['troughs'] = env['df']['sample_last_trough'].values.copy()
     return env, fs, fr
@@ -130,6 +134,10 @@ def _call(i, env, fs, fr):
         return epoch_df(env['df'], n, max(20, n // 4))
     if i == 14:
         return drop_samples_df(env['df'])
+    if i == 23:
+        return recompute_edges(env['df_quiet'], env['thr'])
+    if i == 24:
+        return limit_df(env['df_quiet'], fs, start=0.2 * n / fs, stop=0.8 * n / fs)
     if i == 20:
         return compute_features(sig, fs, fr, burst_method='amp', burst_kwargs=env['bk_min'], threshold_kwargs=env['e_thr'])
     if i == 21:
